@@ -84,6 +84,15 @@ def r1_kneighbors(ctx):
             from .c18 import order_args
             if order_args(d):
                 okd = False
+        if d is not None and okd is not False:
+            from ..effects import Effects
+            ef = getattr(ctx, "_effects", None)
+            if ef is None:
+                ef = ctx._effects = Effects(ctx.an)
+            al = ef.aliases(d)
+            copied = any(x[0] == "call" and (callee(x) in ("numpy.array", "numpy.copy", ".copy") or (callee(x) == ".astype")) for x in walk(d) if isinstance(x, tuple) and x)
+            ctx.check("R1", "%s|data_-is-a-copy|%s" % (qn, tag), False if al and not copied else True, "data_ does not share memory with the array given to fit",
+                      bad="data_ may be a view of the caller's %s (np.ravel / n_1d_arrays return views of contiguous input): changing that array after fit changes the predictions" % sorted(al), fn=qn)
         ctx.check("R1", "%s|data_-is-raveled-data|%s" % (qn, tag), okd, "data_ is the C-order ravel (copied) of the validated data", bad="data_ is not the C-order raveled data: %s" % (show(d)[:60] if d else None), fn=qn)
     qn = KN + ".predict"
     for p in ctx.paths(qn):
